@@ -247,4 +247,59 @@ SuffixPairDrop(xs, ys, lp, rp, ot) ==
   \/ lp <= 0 \/ rp <= 0
   \/ SuffixDrop(Slice0(xs, lp, Len(xs)), Slice0(ys, rp, Len(ys)), lp, rp, Len(xs), Len(ys), ot)
 
+
+-----------------------------------------------------------------------------
+(* Suffix filter, repaired variant (see DESIGN.md section 6, defect 5):      *)
+(*  (a) the partition prunes only when the probe token provably lies outside *)
+(*      the search window; when the window was merely clipped at an end of   *)
+(*      the token list the list is partitioned at that end instead;          *)
+(*  (b) the Hamming budget of the suffixes is the whole-set budget plus      *)
+(*      |lp - rp|: under a common order at most max(lp, rp) of the shared    *)
+(*      tokens lie in a prefix, so                                           *)
+(*      H(lsuf, rsuf) <= ln + rn - 2 o + |lp - rp|.                          *)
+PartitionR(toks, w, left, right0) ==
+  LET right == Min2(right0, Len(toks) - 1) IN
+  IF right < left THEN NoPartition
+  ELSE IF toks[left + 1] > w
+       THEN (IF left = 0 THEN [l |-> <<>>, r |-> toks, f |-> 1, d |-> 1] ELSE NoPartition)
+  ELSE IF toks[right + 1] < w
+       THEN (IF right = Len(toks) - 1 THEN [l |-> toks, r |-> <<>>, f |-> 1, d |-> 1] ELSE NoPartition)
+  ELSE LET pos == BinSearch(toks, w, left, right) IN
+       IF toks[pos + 1] = w
+       THEN [l |-> Slice0(toks, 0, pos), r |-> Slice0(toks, pos + 1, Len(toks)), f |-> 1, d |-> 0]
+       ELSE [l |-> Slice0(toks, 0, pos), r |-> Slice0(toks, pos, Len(toks)),     f |-> 1, d |-> 1]
+
+RECURSIVE EstHammingR(_, _, _, _, _, _)
+EstHammingR(ls, rs, ln, rn, hmax, depth) ==
+  LET ad == Abs(ln - rn) IN
+  IF depth > 2 \/ ln = 0 \/ rn = 0 THEN ad
+  ELSE IF ln = 1 /\ rn = 1 THEN (IF ls[1] = rs[1] THEN 0 ELSE 1)
+  ELSE LET rmid == rn \div 2
+           w    == rs[rmid + 1]
+           o2   == hmax - ad
+           ol   == IF ln < rn THEN 1 ELSE 0
+           orr  == IF ln < rn THEN 0 ELSE 1
+           pr   == PartitionR(rs, w, rmid, rmid)
+           pl   == PartitionR(ls, w, Max2(0, Trunc2(2 * rmid - o2 - 2 * ad * ol)),
+                                     Min2(ln - 1, Trunc2(2 * rmid + o2 + 2 * ad * orr)))
+       IN  IF pl.f = 0 THEN hmax + 1
+           ELSE LET rl == Len(pr.l)  rr == Len(pr.r)  ll == Len(pl.l)  lr == Len(pl.r)
+                    diff == pl.d
+                    hd == Abs(ll - rl) + Abs(lr - rr) + diff
+                IN  IF hd > hmax THEN hd
+                    ELSE LET hl  == EstHammingR(pl.l, pr.l, ll, rl, hmax - Abs(lr - rr) - diff, depth + 1)
+                             hd2 == hl + Abs(lr - rr) + diff
+                         IN  IF hd2 <= hmax
+                             THEN hl + EstHammingR(pl.r, pr.r, lr, rr, hmax - hl - diff, depth + 1) + diff
+                             ELSE hd2
+
+SuffixDropR(lsuf, rsuf, lp, rp, ln, rn, ot) ==
+  IF lp >= ot /\ rp >= ot THEN FALSE
+  ELSE LET hmax == ln + rn - 2 * ot + Abs(lp - rp) IN
+       ~(EstHammingR(lsuf, rsuf, ln - lp, rn - rp, hmax, 1) <= hmax)
+
+SuffixPairDropR(xs, ys, lp, rp, ot) ==
+  \/ lp <= 0 \/ rp <= 0
+  \/ SuffixDropR(Slice0(xs, lp, Len(xs)), Slice0(ys, rp, Len(ys)), lp, rp, Len(xs), Len(ys), ot)
+
 =============================================================================
